@@ -3,6 +3,7 @@ module verif
 go 1.26.0
 
 require (
+	filippo.io/edwards25519 v1.2.0
 	github.com/canopy-network/canopy v0.0.0
 	github.com/cockroachdb/pebble/v2 v2.1.6
 	github.com/drand/kyber v1.3.2
@@ -12,7 +13,6 @@ require (
 )
 
 require (
-	filippo.io/edwards25519 v1.2.0 // indirect
 	github.com/DataDog/zstd v1.5.7 // indirect
 	github.com/RaduBerinde/axisds v0.1.0 // indirect
 	github.com/RaduBerinde/btreemap v0.0.0-20260105202824-d3184786f603 // indirect
